@@ -380,7 +380,7 @@ def explore(fn: Callable[[PathCtx], Any], max_paths: int = 20000, max_decisions:
         prefix = stack.pop()
         if n >= max_paths:
             o = PathOutcome()
-            o.kind = "bound"
+            o.kind = "overflow"
             o.exc = BoundExceeded(f"more than {max_paths} paths")
             outcomes.append(o)
             break
